@@ -160,6 +160,42 @@ def _intlike(e) -> bool:
     return (isinstance(e, ast.Constant) and isinstance(e.value, int) and not isinstance(e.value, bool)) or (isinstance(e, ast.Call) and isinstance(e.func, ast.Name) and e.func.id in ("len", "int") and not e.keywords)
 
 
+def _format_to_fstring(fmt: str, args: list):
+    import string
+
+    vals: list = []
+    auto = 0
+    used = set()
+    try:
+        fields = list(string.Formatter().parse(fmt))
+    except ValueError:
+        return None
+    for lit, field, spec, conv in fields:
+        if lit:
+            if vals and isinstance(vals[-1], ast.Constant):
+                vals[-1] = ast.Constant(value=vals[-1].value + lit)
+            else:
+                vals.append(ast.Constant(value=lit))
+        if field is None:
+            continue
+        if spec or conv:
+            return None
+        if field == "":
+            idx = auto
+            auto += 1
+        elif field.isdigit():
+            idx = int(field)
+        else:
+            return None
+        if idx >= len(args):
+            return None
+        used.add(idx)
+        vals.append(ast.FormattedValue(value=args[idx], conversion=-1, format_spec=None))
+    if used != set(range(len(args))):
+        return None  # an argument that is evaluated but not shown (or shown twice) - leave it
+    return ast.JoinedStr(values=vals)
+
+
 def _percent_to_fstring(node):
     """'{%d}\n' % len(x)  ->  f'{{{len(x)}}}\n'   (plain %s of anything, plain %d of an int-valued expression)"""
     if not (isinstance(node.left, ast.Constant) and isinstance(node.left.value, str)):
@@ -249,6 +285,11 @@ class _Expr(ast.NodeTransformer):
 
     def visit_Call(self, node):
         self.generic_visit(node)
+        # "<constant text with {} / {0} fields>".format(a, b)  ->  f"...{a}...{b}"   (positional fields without spec/conversion)
+        if isinstance(node.func, ast.Attribute) and node.func.attr == "format" and isinstance(node.func.value, ast.Constant) and isinstance(node.func.value.value, str) and not node.keywords and not any(isinstance(a, ast.Starred) for a in node.args):
+            fs = _format_to_fstring(node.func.value.value, node.args)
+            if fs is not None:
+                return ast.copy_location(fs, node)
         # f(<generator expression>)  ->  f([list comprehension])   for callees that consume the whole iterable at once
         if len(node.args) >= 1 and isinstance(node.args[0], ast.GeneratorExp) and not node.args[0].generators[0].is_async:
             name = node.func.attr if isinstance(node.func, ast.Attribute) else (node.func.id if isinstance(node.func, ast.Name) else None)
